@@ -283,6 +283,9 @@ def dict_to_live_points(d, non_sampling_parameters=True):
     else:
         N = 1
     if N == 1:
+        if hasattr(a[0], "__len__"):
+            # Single point specified using sequences of length one
+            a = tuple(v[0] for v in a)
         if non_sampling_parameters:
             a = (*a, *config.livepoints.non_sampling_defaults)
         return np.array(
